@@ -8,3 +8,7 @@ open A2l.Chk
 #print axioms dangling_is_reported
 #print axioms one_corruption_one_report
 #print axioms missing_sub_group_reported_twice
+#print axioms group_structure_closed_form
+#print axioms group_judged_by_own_flag
+#print axioms well_formed_forest_no_verdict
+#print axioms orphan_is_reported
